@@ -33,7 +33,8 @@ REGISTRY = dict(
           "everything _run writes is a snapshot of an iterate 1..n. Noisy runs: identical results given the identical RNG "
           "stream (tape theorem), same law when progress is a Markov kernel (theorem for every lawful monad; its instance at "
           "Mathlib's PMF is in Props/C26Law.lean, audited by the thorough tier), counterexample for a different stream. Full on the glue; the numerical content of progress and the pickle round trip are a stated contract, "
-          "validated on every run by real TDVP/DMRG/noisy resumes from every save point."),
+          "validated on every run by real TDVP/DMRG/noisy resumes from every save point, with the autosave path passed to resume() as "
+          "Path, str, relative str and relative Path (a resumed run that raises where the uninterrupted run returns is a failure)."),
     note=("Trusted: Lean kernel + propext/Classical.choice/Quot.sound; Mathlib PMF monad; hand-written Model.Autosave tied by "
           "trace correspondence and by end-to-end resumes on the real code; contract 'unpickled back-end behaves as the pickled "
           "one' and 'progress is a function of the pickled state (+ RNG stream)' validated by exact state digests and 1e-12 "
@@ -49,6 +50,17 @@ AUDIT = "Audit/C26.lean"
 LAW_MODULE = "EmuVerif.Props.C26Law"     # the PMF instance of noisy_same_law (imports Mathlib measure theory: thorough tier)
 LAW_AUDIT = "Audit/C26Law.lean"
 TOL = 1e-12
+PATH_FORMS = ["Path", "str", "relative str", "relative Path"]   # the two declared argument types of resume(), absolute and relative
+
+
+def path_form(p: Path, form: str):
+    import os
+    if form == "Path":
+        return p
+    if form == "str":
+        return str(p)
+    rel = os.path.relpath(p, os.getcwd())
+    return rel if form == "relative str" else Path(rel)
 D3_CLASS = "resume-not-unpermuted"
 
 
@@ -176,7 +188,8 @@ def one_config(rep: Report, cx: list, rng, seed: int, kind: str, reorder: bool, 
             rest = [k for k in ks if k not in keep]
             keep |= set(rng.sample(rest, max(0, max_points - len(keep))))
             ks = sorted(k for k in keep if 1 <= k <= n)
-        for k in ks:
+        form0 = rng.randrange(len(PATH_FORMS))
+        for k_i, k in enumerate(ks):
             d = digests[k]
             rep.hist("save_point", f"{d['direction'][0]}{d['sweep_index']}/t{d['timestep_index']}" + ("/rootfinder" if d.get("root_finder") else ""))
             cctx = dict(ctx, resumed_from_save=k, of=n, machine_state={x: d[x] for x in ("timestep_index", "sweep_index", "direction", "n_left_baths", "n_right_baths", "current_time", "target_time")})
@@ -208,10 +221,14 @@ def one_config(rep: Report, cx: list, rng, seed: int, kind: str, reorder: bool, 
             U.set_rng_state(rngs[k])
             with U.fake_time(clock, also_backend=True), ip2.installed(), mock.patch.object(impl_mod, "random", rp2), \
                     mock.patch.object(impl_mod.MPSBackendImpl, "permute_results", permute_results):
+                form = PATH_FORMS[(k_i + form0) % len(PATH_FORMS)]
+                cctx["path_form"] = form
+                rep.hist("resume_path_form", form)
                 try:
-                    res = MPSBackend.resume(copy)
+                    res = MPSBackend.resume(path_form(copy, form))
                 except Exception as e:
-                    rep.fail(f"MPSBackend.resume raised {type(e).__name__}: {e}", cctx)
+                    # the uninterrupted run returned results: a resumed run that raises violates "same results"
+                    rep.fail(f"MPSBackend.resume(<{form}>) raised {type(e).__name__}: {e} where the uninterrupted run returns results", cctx)
                     continue
             got = U.canon_results(res)
             rep.case(key=(kind, reorder, json.dumps(sysd, sort_keys=True), k),
@@ -381,7 +398,8 @@ def replay(rep: Report, path: str) -> int:
                 p.write_bytes(kept[k])
                 U.set_rng_state(rngs[k])
                 try:
-                    got = U.canon_results(MPSBackend.resume(p))
+                    os.chdir(tmp)
+                    got = U.canon_results(MPSBackend.resume(path_form(p, d.get("path_form", "Path"))))
                     msg = msg or U.diff_results(ref, got, TOL)
                     if p.exists():
                         msg = msg or "autosave file not removed by resume"
